@@ -45,7 +45,7 @@ def stop_observe():
     _SINK = None
 
 
-FOLDERS = ["", "a", "a/b", "c", "nested.csv"]
+FOLDERS = ["", "a", "a/b", "c", "nested.csv", "d@v2"]      # "@" separates path and time stamp in a load identifier
 FILES = ["f1.csv", "f2.csv", "g.csv", "h.csv", "in_1.csv", "in_2.csv", "notes.txt", "k.CSV"]
 # extensions in other letter cases: the file-name pattern and the file reader both ignore case
 CASED_FILES = ["k.CSV", "Mix.Csv", "in_3.CSV"]
@@ -55,14 +55,16 @@ SKIPPED_FILES = ["~$lock.csv", "old_in_9.csv"]
 
 def gen_tree(rng, hostile=False, max_files=6):
     """A tree description: files with block lists; include lines are specification strings."""
-    nfold = rng.choice([1, 2, 3, 4, 5, 5])
+    nfold = rng.choice([1, 2, 3, 4, 5, 5, 6, 6])
     folders = FOLDERS[:nfold]
     nfiles = rng.randint(1, max_files)
     files = []
     used = set()
     for k in range(nfiles):
         fo = rng.choice(folders)
-        nm = rng.choice(FILES[:6] + CASED_FILES + SKIPPED_FILES) if rng.random() < 0.85 else rng.choice(SKIPPED_FILES)
+        if nfold == 6 and rng.random() < 0.5:
+            fo = "d@v2"          # several files in the folder whose name holds the identifier's separator
+        nm = rng.choice(FILES[:6] + CASED_FILES + SKIPPED_FILES + ["m@1.csv"]) if rng.random() < 0.85 else rng.choice(SKIPPED_FILES)
         rel = (fo + "/" + nm) if fo else nm
         if rel in used:
             continue
